@@ -43,6 +43,7 @@ Section FunctionRT.
   Let decl := f_inputs f ++ nouts.
   Let dg := deser_graph (S n).
   Let sg := ser_graph fuel' None.
+  Let sgn := ser_graph fuel' (Some irv).
   Notation fvf := (fvf f).
   Notation FT1 := (FT1 f).
 
@@ -54,15 +55,15 @@ Section FunctionRT.
   Lemma f_nodes_phase :
     exists inodes,
       mapS (deser_node dg empty_graph [] vis []) (f_nodes f) FT1 = Ok (inodes, FT1)
-      /\ Forall2 (node_rel sg (Some irv)) (f_nodes f) inodes.
+      /\ Forall2 (node_rel sgn (Some irv)) (f_nodes f) inodes.
   Proof.
-    apply (nodes_phase dg sg (fun g' => wf_graph true decl g' && small n g') [] FT1 vis [] allow_dev (Some irv) decl).
+    apply (nodes_phase dg sgn (fun g' => wf_graph allow_dev decl g' && small n g') [] FT1 vis [] allow_dev (Some irv) decl).
     - intros g' Hw. apply andb_prop in Hw. destruct Hw as [Hw1 Hw2].
-      apply (nested_rt n fuel' decl [FT1] g' Hfuel); try assumption.
+      apply (nested_rt n fuel' allow_dev (Some irv) decl [FT1] g' Hfuel Hirv); try assumption.
       + constructor; [apply (FT1_ok f) | constructor].
       + intros k Hk. unfold visible_in. simpl. rewrite (FT1_lookup f allow_dev allow_vinfo W k Hk). eexists. reflexivity.
     - unfold small. change (is_empty_graph empty_graph) with true. rewrite orb_true_r, andb_true_r.
-      destruct decl; reflexivity.
+      destruct allow_dev; destruct decl; reflexivity.
     - constructor; [apply (FT1_ok f) | constructor].
     - exact Hirv.
     - intros k Hk. unfold visible_in. simpl. rewrite (FT1_lookup f allow_dev allow_vinfo W k Hk). eexists. reflexivity.
@@ -88,7 +89,7 @@ Section FunctionRT.
     destruct (attrs_roundtrip_gen dg sg (fun g' => wf_graph true [] g' && small n g') [] false) with (l := f_attr_protos f)
       as (ias & H1 & H2 & l' & H3 & H4).
     - intros g' Hw. apply andb_prop in Hw. destruct Hw as [Hw1 Hw2].
-      apply (nested_rt n fuel' [] [] g' Hfuel); try assumption; [constructor | intros k []].
+      apply (nested_rt n fuel' true None [] [] g' Hfuel (fun _ => I)); try assumption; [constructor | intros k []].
     - unfold small. change (is_empty_graph empty_graph) with true. rewrite orb_true_r. reflexivity.
     - apply forallb_forall. intros a Ha.
       apply wf_attr_strengthen; [exact (forallb_In _ _ _ (f_attrs_wf _ _ _ W) Ha)|].
@@ -150,9 +151,9 @@ Section FunctionRT.
 
   Lemma fser_nodes nodes inodes :
     (forall nd, In nd nodes -> In nd (f_nodes f)) ->
-    Forall2 (node_rel sg (Some irv)) nodes inodes ->
+    Forall2 (node_rel sgn (Some irv)) nodes inodes ->
     exists nres,
-      mapM (fun nd => np <- ser_node sg (Some irv) nd ;;
+      mapM (fun nd => np <- ser_node sgn (Some irv) nd ;;
                       vs <- mapM (fun k => match k with [] => Ok [] | _ => v <- getv FT1 k ;; Ok [v] end) (in_outputs nd) ;;
                       Ok (np, filter should_create (concat vs))) inodes = Ok nres
       /\ map (norm_node norm_graph empty_graph) (map fst nres) = map (norm_node norm_graph empty_graph) nodes
@@ -176,7 +177,7 @@ Section FunctionRT.
   Definition info_values : list IValue := filter should_create (map fvf decl).
 
   Lemma ser_function_ok inodes ias l' :
-    Forall2 (node_rel sg (Some irv)) (f_nodes f) inodes ->
+    Forall2 (node_rel sgn (Some irv)) (f_nodes f) inodes ->
     Forall (fun ia => attr_has_value ia = true) ias ->
     mapM (ser_attr sg) ias = Ok l' ->
     exists nps,
@@ -198,7 +199,7 @@ Section FunctionRT.
     cbn [if_graph if_attrs if_domain if_name if_overload ig_values ig_inputs ig_outputs ig_nodes ig_doc ig_opsets ig_meta].
     rewrite (mapM_total _ fvf).
     2:{ intros k Hk. apply (FT1_getv f allow_dev allow_vinfo W). apply in_or_app. left. exact Hk. }
-    cbn [res_bind]. fold sg.
+    cbn [res_bind]. fold sg sgn.
     rewrite mapM_app, (ser_attrs_valued ias Hval l' Hser). cbn [res_bind].
     rewrite (mapM_total _ (fun _ => @nil (AttrP GraphP))).
     2:{ intros a Ha. unfold undefs in Ha. apply in_map_iff in Ha. destruct Ha as (nm & <- & _). reflexivity. }
